@@ -203,7 +203,15 @@ func drawScenario(rt *rapid.T, host bool) *scenario {
 
 	nev := rapid.IntRange(0, 4).Draw(rt, "nevents")
 	if theme == 3 {
-		sc.events = append(sc.events, tlEvent{at: 0, kind: evClose, pick: rapid.IntRange(0, 2).Draw(rt, "close0-pick"), local: rapid.Bool().Draw(rt, "close0-local")})
+		if rapid.IntRange(0, 2).Draw(rt, "arrive0") == 0 {
+			// a limited conn ARRIVES at the very instant the callers start
+			if rapid.Bool().Draw(rt, "arrive0-alone") {
+				sc.initial = nil
+			}
+			sc.events = append(sc.events, tlEvent{at: 0, kind: evAdd, cls: clsL})
+		} else {
+			sc.events = append(sc.events, tlEvent{at: 0, kind: evClose, pick: rapid.IntRange(0, 2).Draw(rt, "close0-pick"), local: rapid.Bool().Draw(rt, "close0-local")})
+		}
 	}
 	for i := 0; i < nev; i++ {
 		e := tlEvent{at: ms(rapid.SampledFrom(grid).Draw(rt, "ev-at"))}
